@@ -27,13 +27,19 @@ CONSTANTS
 CHECK_DEADLOCK FALSE
 """
 LOC = {"r": "r.yaml", "a": "sub/a.yaml", "b": "sub/deep/b.yaml", "c": "c.yaml"}
+# "twins": two DIFFERENT files with the same name, each imported with the same text ("defs.yaml") from its own directory
+TWIN_LOC = {"r": "r.yaml", "a": "defs.yaml", "b": "sub/defs.yaml", "c": "sub/c.yaml"}
 
 
-def spell(src: str, dst: str, variant: int) -> str:
+def loc_of(graph: str) -> Dict[str, str]:
+    return TWIN_LOC if graph.startswith("twins") else LOC
+
+
+def spell(src: str, dst: str, variant: int, loc: Dict[str, str] = LOC) -> str:
     """path of file dst as written in an import list of file src"""
-    sdir = os.path.dirname(LOC[src])
-    rel = os.path.relpath(LOC[dst], sdir or ".")
-    v = variant % 4
+    sdir = os.path.dirname(loc[src])
+    rel = os.path.relpath(loc[dst], sdir or ".")
+    v = variant % 4 if loc is LOC else 0
     if v == 1:
         return "./" + rel
     if v == 2 and sdir:
@@ -69,12 +75,13 @@ def item_yaml(f: Dict[str, Any], kind: str, name: str, idv: int, res_form: int =
 def build(case: dict, idx: int) -> Dict[str, Dict[str, Any]]:
     c = case["case"]
     files: Dict[str, Dict[str, Any]] = {}
+    loc = loc_of(c["g"])
     order = {"r": 0, "a": 1, "b": 2, "c": 3}
     for fn in ("r", "a", "b", "c"):
         f: Dict[str, Any] = {}
         imps = case["imp"][fn]
         if imps:
-            f["imports"] = [spell(fn, dst, idx + j) for j, dst in enumerate(imps)]
+            f["imports"] = [spell(fn, dst, idx + j, loc) for j, dst in enumerate(imps)]
         k = order[fn]
         item_yaml(f, "const", f"BGC_{fn}", 0)
         item_yaml(f, "msg", f"BGM_{fn}", 300 + k)
@@ -89,7 +96,7 @@ def build(case: dict, idx: int) -> Dict[str, Dict[str, Any]]:
         files[c["f1"]]["message_defs"]["_RESERVED_"] = {"id": [50, i2], "fields": None}
     else:
         item_yaml(files[c["f2"]], c["k2"], n2, i2, idx + 1)
-    return {LOC[k]: v for k, v in files.items()}
+    return {loc[k]: v for k, v in files.items()}
 
 
 def classify(case: dict, p, err) -> List[str]:
